@@ -24,7 +24,7 @@ FLOATS = [0.0, -0.0, 1.5, -2.25, math.inf, -math.inf, math.nan, 5e-324, 1.797693
 STRS = ["", "a", "é", "a\x00", "😀", "abc"]
 BYTES = [b"", b"\x00", b"a\xff", b"abc"]
 BOOLS = [False, True]
-RAWS = ["<omitted>", 0, 0.0, False, "", b"", 7, "r", -1, b"\x00"]
+RAWS = ["<omitted>", 0, 0.0, -0.0, False, "", b"", 7, "r", -1, b"\x00", math.nan]
 FORMATS = {"int": ["", "d", "05d", "x", ">8", "+,"], "float": ["", ".3f", "e", "08.2f", "g", "+.1%"], "str": ["", ">6", "<4", "^5", ".1"],
            "bytes": [""], "bool": ["", "d", ">6", "x"]}
 
